@@ -74,12 +74,18 @@ def gen_hop_url(rng, host=None):
     return 'http://' + userinfo + host + path + ('?' + query if query else '')
 
 
+# what a hostile server may put after 'sidN=' (the Set-Cookie line itself is one header line)
+COOKIE_VALUES = [None, None, None, 'a b', 'a\tb', 'x"y', '"q q"', '\xe9', 'a,b', '%0D%0AInjected: 1', 'a\x0bInjected: 1', 'a\x0cb', 'a\x7fb', '=', '',
+                 'a\rInjected: 1', 'v; Injected', 'x' * 5000, 'a\x85b', 'a\x1cb']
+
+
 def gen_case(rng):
     n_hops = rng.choice([1, 1, 2, 3, 4, 6])
     hops = []
     for i in range(n_hops):
         hops.append({'url': gen_hop_url(rng), 'code': rng.choice(REDIRECT_CODES), 'set_cookie': rng.random() < 0.4,
-                     'location_style': rng.choice(['absolute', 'absolute', 'relative-if-same-host'])})
+                     'location_style': rng.choice(['absolute', 'absolute', 'relative-if-same-host', 'raw']),
+                     'cookie_value': rng.choice(COOKIE_VALUES)})
     case = {'hops': hops, 'credentials': None, 'referer': rng.choice([None, 'http://a.test/from page', 'https://s.test/secret']),
             'method': 'GET', 'challenge': False, 'preset_cookie': rng.random() < 0.5, 'proxy': rng.choice([False, False, False, False, False, True, True, 'tls'])}
     if rng.random() < 0.35:
@@ -149,8 +155,10 @@ def run_case(case, part):
                 headers = [b'Content-Length: 0', b'Server: sim']
                 if h['set_cookie']:
                     cookie_serial += 1
-                    headers.append(('Set-Cookie: sid%d=v%d-from-%s; Path=/' % (
-                        cookie_serial, cookie_serial, info.hostname.replace(':', '_'))).encode())
+                    value = 'v%d-from-%s' % (cookie_serial, info.hostname.replace(':', '_'))
+                    if h.get('cookie_value') is not None:
+                        value = h['cookie_value']
+                    headers.append(('Set-Cookie: sid%d=%s; Path=/' % (cookie_serial, value)).encode('latin-1'))
                 if i == 0 and case['challenge'] and case['credentials']:
                     peer.responses.append({'pieces': [b'HTTP/1.1 401 Unauthorized\r\nWWW-Authenticate: Basic realm="r"\r\n'
                                                       b'Content-Length: 0\r\n\r\n'], 'then': 'keep'})
@@ -162,6 +170,9 @@ def run_case(case, part):
                     status = ('HTTP/1.1 %d Redirect' % h['code']).encode()
                     if h['location_style'] == 'relative-if-same-host' and host_of(nxt) == host_of(info):
                         loc = nxt.path + ('?' + nxt.query if nxt.query else '')
+                    elif h['location_style'] == 'raw' and '\\' not in hops[i + 1]['url']:
+                        # the next hop as a careless server spells it: raw spaces, quotes, brackets, non-ASCII bytes
+                        loc = hops[i + 1]['url']
                     else:
                         loc = nxt.url
                     headers.append(b'Location: ' + loc.encode('latin-1'))
